@@ -70,6 +70,7 @@ fn norm_steps(steps: &[Step], cur: usize, cfg: &Cfg, in_future: bool, depth: usi
             Step::OpenGate { g } if cfg.gates > 0 => Some(Step::OpenGate { g: sc(*g, cfg.gates as usize) }),
             Step::BlockOnGate { g } if cfg.gates > 0 && !in_future => Some(Step::BlockOnGate { g: sc(*g, cfg.gates as usize) }),
             Step::AwaitGate { g } if cfg.gates > 0 && in_future => Some(Step::AwaitGate { g: sc(*g, cfg.gates as usize) }),
+            Step::SelfWake if in_future => Some(Step::SelfWake),
             Step::Panic if opts.allow_panic => Some(Step::Panic),
             _ => None,
         };
@@ -435,7 +436,10 @@ fn object_users(callers: &[Vec<Op>], objects: usize) -> Vec<usize> {
     fn steps_any_nested(steps: &[Step]) -> bool {
         steps.iter().any(|s| matches!(s, Step::NestedDesync { .. } | Step::NestedSync { .. } | Step::NestedFutDesync { .. } | Step::AwaitFutSync { .. } | Step::AwaitFutDesync { .. } | Step::Release { .. }))
     }
-    let mut users = vec![0usize; objects];
+    // with few or no pool threads a queued job is run by whichever context drains its queue: every user of an object
+    // is therefore also a (potential) user of the higher objects that queued jobs on it reach through nested steps
+    let mut nested_async = vec![false; objects];
+    let mut touched_by: Vec<Vec<bool>> = vec![];
     for ops in callers {
         let mut touched = vec![false; objects];
         for op in ops {
@@ -448,10 +452,24 @@ fn object_users(callers: &[Vec<Op>], objects: usize) -> Vec<usize> {
                         for t in touched.iter_mut().skip(o + 1) {
                             *t = true;
                         }
+                        if !matches!(op, Op::Sync { .. } | Op::TrySync { .. } | Op::FutSync { .. }) {
+                            nested_async[o] = true;
+                        }
                     }
                 }
                 Op::Release { o } | Op::Suspend { o, .. } | Op::Attempt { o, .. } => touched[sc8(*o, objects)] = true,
                 _ => {}
+            }
+        }
+        touched_by.push(touched);
+    }
+    let mut users = vec![0usize; objects];
+    for touched in touched_by.iter_mut() {
+        for o in 0..objects {
+            if touched[o] && nested_async[o] {
+                for t in touched.iter_mut().skip(o + 1) {
+                    *t = true;
+                }
             }
         }
         for o in 0..objects {
@@ -469,6 +487,7 @@ fn norm_pipe_body(body: &[Step], cur: usize, cfg: &Cfg) -> Vec<Step> {
     body.iter()
         .map(|s| match s {
             Step::Yield => Step::Yield,
+            Step::SelfWake => Step::SelfWake,
             Step::AwaitGate { g } if cfg.gates > 0 => Step::AwaitGate { g: sc(*g, cfg.gates as usize) },
             Step::NestedDesync { o, .. } if objects - cur - 1 > 0 => Step::NestedDesync { o: (cur + 1 + sc(*o, objects - cur - 1) as usize) as u8, body: vec![Step::Touch], id: 0 },
             _ => Step::Touch,
